@@ -109,3 +109,29 @@ package glyf
 //@     invariant len(gg) == numGlyphs && numGlyphs == len(offs) - 1 && fresh(gg) && off(gg) == 0
 //@     invariant forall i int :: 0 <= i && i < len(offs) ==> 0 <= offs[i] && offs[i] <= len(enc.GlyfData)
 //@     invariant forall i int :: 0 <= i && i < len(offs) - 1 ==> offs[i] <= offs[i+1]
+
+//@ func (glyph *SimpleGlyph) Decode() (info *GlyphInfo, err error)   props: C02 C11
+//@   requires glyph != nil && glyph.NumContours >= 0
+//@   ensures err == nil ==> info != nil && len(info.Contours) == glyph.NumContours
+//@   modifies nothing
+//@   loop 0
+//@     invariant 0 <= i && i <= numContours && len(endPtsOfContours) == numContours && len(buf) >= 2*numContours + 2 && off(endPtsOfContours) == 0
+//@     decreases numContours - i
+//@   loop 1
+//@     invariant 0 <= i && i <= numPoints && len(ff) == numPoints
+//@     decreases numPoints - i
+//@   loop 2
+//@     invariant 1 <= i && i <= numPoints && len(ff) == numPoints && pre(i) <= i
+//@     decreases count
+//@   loop 3
+//@     invariant len(xx) == numPoints && len(ff) == numPoints
+//@   loop 4
+//@     invariant len(yy) == numPoints && len(xx) == numPoints && len(ff) == numPoints
+//@   loop 5
+//@     invariant 0 <= i && i <= numContours && len(cc) == numContours && len(endPtsOfContours) == numContours
+//@     invariant 0 <= start && start <= numPoints && len(yy) == numPoints && len(xx) == numPoints && len(ff) == numPoints
+//@     decreases numContours - i
+//@   loop 6
+//@     invariant start <= j && j <= end && len(pp) == end - start && end <= numPoints && 0 <= start
+//@     invariant len(yy) == numPoints && len(xx) == numPoints && len(ff) == numPoints
+//@     decreases end - j
